@@ -4,6 +4,7 @@ import (
 	"crypto/rand"
 	"errors"
 	"fmt"
+	"sort"
 	"strconv"
 	"strings"
 	"time"
@@ -249,7 +250,35 @@ func DelCheckpoint(cli client.Redis, checkpointName string, runId string) error 
 		RunId: runId,
 	}
 
+	// The records are deleted one database after the other, and the tool may stop in between.
+	// The record GetCheckpoint reads (largest offset, newest on a tie) goes LAST : deleted first,
+	// a stale lower record of another database would be left as the largest one and the next
+	// start would take it for the position the target holds.
+	type dbRecord struct {
+		db     int32
+		offset int64
+		mtime  int64
+	}
+	records := make([]dbRecord, 0, len(mp))
 	for db := range mp {
+		rec := dbRecord{db: db, offset: -1}
+		if tcpi, err := fetchCheckpoint([]string{runId}, cli, int(db), checkpointName); err == nil && tcpi != nil {
+			rec.offset, rec.mtime = tcpi.Offset, tcpi.Mtime
+		}
+		records = append(records, rec)
+	}
+	sort.Slice(records, func(i, j int) bool {
+		if records[i].offset != records[j].offset {
+			return records[i].offset < records[j].offset
+		}
+		if records[i].mtime != records[j].mtime {
+			return records[i].mtime < records[j].mtime
+		}
+		return records[i].db < records[j].db
+	})
+
+	for _, rec := range records {
+		db := rec.db
 		err := redis.SelectDB(cli, uint32(db))
 		if err != nil {
 			return err
